@@ -1166,7 +1166,7 @@ CONSTANTS
 %s
 CHECK_DEADLOCK FALSE
 """
-MPCL_ALL_KINDS = '{"const", "lit", "bin", "cmp", "logic", "neg", "shift", "cast", "if", "ifnest", "ifret", "loop", "loopret", "nest", "shadow", "expr3", "arr", "mat", "call", "struct", "tuple"}'
+MPCL_ALL_KINDS = '{"const", "lit", "bin", "cmp", "logic", "neg", "shift", "cast", "if", "ifnest", "ifret", "loop", "loopret", "nest", "shadow", "expr3", "arr", "mat", "call", "struct", "tuple", "opassign"}'
 
 
 def mpcl_cases(ctx, name, widths, nstmts, num, kinds=MPCL_ALL_KINDS, limit=None):
@@ -1235,6 +1235,9 @@ def c03(ctx):
                         kinds='{"tuple", "struct"}')
     cases += mpcl_cases(ctx, "mpcl-gen-l", "{3, 8}", 5, 1200 if thorough else 250, limit=4000 if thorough else 500,
                         kinds='{"tuple", "arr"}')
+    # compound assignments (op= on variables, fields and elements, ++ / --, a loop over len(array))
+    cases += mpcl_cases(ctx, "mpcl-gen-m", "{3, 8}", 5, 1500 if thorough else 300, limit=5000 if thorough else 600,
+                        kinds='{"opassign", "struct", "arr", "const"}')
     cf = os.path.join(ctx.tmp, "c03cases.ndjson")
     write_ndjson(cf, cases)
     rf = os.path.join(ctx.tmp, "c03res.ndjson")
